@@ -9,6 +9,8 @@ import (
 	"verifharness/props/c05"
 	"verifharness/props/c06"
 	"verifharness/props/c07"
+	"verifharness/props/c10"
+	"verifharness/props/c11"
 	"verifharness/props/c12"
 	"verifharness/props/c13"
 	"verifharness/props/c14"
@@ -36,6 +38,8 @@ import (
 )
 
 var checks = map[string]driver.Check{
+	"C11": {Level: "exploration", Fn: c11.Run},
+	"C10": {Level: "exploration", Fn: c10.Run},
 	"C37": {Level: "exploration", Fn: c37.Run},
 	"C19": {Level: "exploration", Fn: c19.Run},
 	"C03": {Level: "exploration", Fn: c03.Run},
